@@ -97,6 +97,10 @@ row("g_x1", "sync", tags=["x"], limit=3, policy="lru")
 row("g_x2", "async", events=["x"])
 row("g_x3", "sync", deps=["x"], tags=["g_x1"])
 row("g_x4", "async", tags=["ea"], events=["ta"], limit=3, policy="fifo")
+# labels that differ only in letter case or surrounding blanks: a request names a label verbatim, no
+# normalisation may make it miss its own cache (or count a different label's cache)
+row("g_u1", "sync", tags=["Ta", " tb"], events=["OrderPlaced", "ea "], limit=3, policy="lru")
+row("g_u2", "async", tags=["TA"], events=["orderplaced", "Ea"], deps=["G_A"])
 # async bodies with await points (C20)
 row("a_await1_arc", "async", awaits=1, limit=2, policy="arc")
 row("a_await2_tlru_ttl3", "async", awaits=2, limit=2, policy="tlru", ttl=3)
